@@ -66,7 +66,9 @@ func (f *Defmethod) Call(s *slip.Scope, args slip.List, depth int) (result slip.
 	case slip.Symbol:
 		var aux *Aux
 		if fi := slip.FindFunc(string(ta)); fi != nil {
-			if aux, _ = fi.Aux.(*Aux); aux == nil {
+			// Without a Doc it is the stand in for a function called but
+			// not defined yet.
+			if aux, _ = fi.Aux.(*Aux); aux == nil && fi.Doc != nil {
 				slip.ProgramPanic(s, depth, "%s already names an ordinary function or macro.", ta)
 			}
 		}
@@ -237,7 +239,7 @@ func insertMethod(class, super slip.Class, method *slip.Method, combo *slip.Comb
 func DefCallerMethod(qualifier string, caller slip.Caller, fd *slip.FuncDoc) *slip.Method {
 	var aux *Aux
 	if fi := slip.FindFunc(fd.Name); fi != nil {
-		if aux, _ = fi.Aux.(*Aux); aux == nil {
+		if aux, _ = fi.Aux.(*Aux); aux == nil && fi.Doc != nil {
 			slip.ProgramPanic(slip.NewScope(), 0, "%s already names an ordinary function or macro.", fd.Name)
 		}
 	}
